@@ -10,7 +10,9 @@ struct C16 : Harness {
     Api api = static_api();
     alignas(64) uint8_t canary[4096];
 
-    // prior: 0 zeros, 1 0xFF, 2 garbage byte, 3 stale image of a cleaned-up object, 4 planted pointers to canary memory
+    // prior: 0 zeros, 1 0xFF, 2 garbage byte, 3 stale image of a cleaned-up object, 4 planted pointers to canary memory,
+    // 5 a live, keyed and used object (initialising it again is the caller's leak, but "whatever the object's memory
+    //   contained before the call" still applies: after the failed init it must be inert, not the old object again)
     static void build(Program &p, int kind, int be, int failat, int prior, int fillbyte, const Bytes &key, const Bytes &data) {
         int bs = kind_bs(kind);
         bool ctr = kind_is_ctr(kind), mant = kind == CM || kind == PM;
@@ -35,10 +37,11 @@ struct C16 : Harness {
             if (kind == PM) e.set("tweak", d);
             return e;
         };
-        if (prior == 3) {   // a previous complete life leaves a stale image behind
+        if (prior == 3 || prior == 5) {   // a previous life: complete (stale image left behind) or still going on
             p.push_back(mkop(opn(kind, "init")).set("s", 0).set("be", be));
             p.push_back(keyop(false)); p.push_back(dataop(false));
-            p.push_back(mkop(opn(kind, "cleanup")).set("s", 0));
+            if (prior == 3) p.push_back(mkop(opn(kind, "cleanup")).set("s", 0));
+            else p[0].set("liveprior", 1);
         }
         p.push_back(mkop(opn(kind, "init")).set("s", 0).set("be", be).set("failat", failat).set("inv", 1));
         // every other function on the object left behind by the failed init
@@ -66,7 +69,7 @@ struct C16 : Harness {
             int kind = *rc::gen::element((int)C128, (int)C64, (int)CM, (int)P128, (int)P64, (int)PM);
             auto bes = backends_for(kind);
             int be = *rc::gen::elementOf(bes);
-            int prior = *irange(0, 4);
+            int prior = *irange(0, 5);
             int failat = *rc::gen::weightedOneOf<int>({{6, rc::gen::just(1)}, {3, rc::gen::just(2)}, {1, rc::gen::just(3)}});
             build(p, kind, be, failat, prior, *irange(1, 254), *gbytes(32), *gdata(64));
             return p;
@@ -75,6 +78,9 @@ struct C16 : Harness {
 
     std::string run(const Program &p, Stats &st) override {
         MonHooks mh; mh.reset((int)p[0].geti("amode", 0));
+        // the block of an object that is initialised again while live is orphaned by the caller, not leaked by the library
+        int orphans = p[0].geti("liveprior") ? 1 : 0;
+        if (orphans) mh.check_live = false;
         memset(canary, 0xAB, sizeof canary);
         ExecOptions eo; eo.hooks = &mh; eo.final_cleanup = false;
         Exec ex(api, eo);
@@ -97,7 +103,7 @@ struct C16 : Harness {
                     // the rest of the canned program assumes a failed init: stop judging here
                     Exec::Slot &sl = ex.slot_table()[0]; (void)sl;
                     ex.finalize();
-                    if (skv_mon_live()) return "leak";
+                    if (skv_mon_live() > orphans) return "leak";
                     if (!st.shrinking) st.case_done(ser(p), false);
                     return "";
                 }
@@ -119,14 +125,15 @@ struct C16 : Harness {
                 return "op #" + std::to_string(i) + " [" + ser(p[i]).substr(0, 160) + "]: after a failed and a repeated init the object misbehaves: " + rec_str(t[i]).substr(0, 300);
         }
         ex.finalize();
-        if (skv_mon_live()) return "leak: " + std::to_string(skv_mon_live()) + " block(s) live at the end";
+        if (skv_mon_live() != orphans) return "leak: " + std::to_string(skv_mon_live()) + " block(s) live at the end (expected " + std::to_string(orphans) + ")";
         if (!st.shrinking) {
             int be = -1; for (auto &r : t) if (r.be >= 0) be = r.be;
             std::string site = p[0].name.substr(4) + "/be" + std::to_string(be);
             int prior = p[0].geti("plant") ? 4 : -1;
             st.count("site/" + site);
             st.count("block-placement-mode=" + std::to_string(p[0].geti("amode", 0)));
-            if (prior == 4) st.count("prior/planted-pointers");
+            if (p[0].geti("liveprior")) st.count("prior/live-object-initialised-again");
+            else if (prior == 4) st.count("prior/planted-pointers");
             else if (p.size() > 2 && p[1].name.find(".init") != std::string::npos && !p[1].geti("failat")) st.count("prior/stale-image-of-cleaned-object");
             else st.count("prior/fill=" + std::string(p[0].geti("fill") == 0 ? "00" : p[0].geti("fill") == 255 ? "ff" : "garbage"));
             st.case_done(ser(p), injected);
